@@ -527,7 +527,7 @@ class Node(object):
         """
         srvr.total_time = self.increment_time(self.now, -srvr.start_date)
         self.overtime.append(self.increment_time(self.now, -srvr.shift_end))
-        self.all_servers_busy.append(srvr.busy_time)
+        self.all_servers_busy.append(srvr.busy_time - srvr.busy_time_at_wrap_up)
         self.all_servers_total.append(srvr.total_time)
         indx = self.servers.index(srvr)
         del self.servers[indx]
